@@ -148,6 +148,7 @@ def mon_conn(ops, impl):
     peer_goaway, result_seen = "-", False
     cap_wait, sendbuf = {}, 409600
     io_raised = []
+    submitted, sent, given_up = {}, {}, set()
     for i, (o, a) in enumerate(zip(ops, impl)):
         w = o.split(" ")
         if w[0] == "cn_new":
@@ -164,6 +165,7 @@ def mon_conn(ops, impl):
             peer_goaway, result_seen = "-", False
             cap_wait, sendbuf = {}, 409600
             io_raised = []
+            submitted, sent, given_up = {}, {}, set()
             for kv in w[2:]:
                 if kv.startswith("sendbuf="):
                     sendbuf = int(kv[8:])
@@ -301,10 +303,26 @@ def mon_conn(ops, impl):
             out.append((i, f"mon_cn delivered {slots[int(w[1])]} end"))
         if w[0] == "cn_budget":
             budget_open = w[1] == "inf"
+        # C01, send side: octets accepted by send_data per stream vs octets of DATA written when END_STREAM goes out
+        if w[0] == "cn_data" and r == "ok" and w[1].isdigit() and int(w[1]) < len(slots):
+            submitted[slots[int(w[1])]] = submitted.get(slots[int(w[1])], 0) + int(w[2])
+        if (w[0] == "cn_reset" or (w[0] == "cn_drop" and len(w) > 2 and w[2] in ("send", "all", "responder"))) \
+                and len(w) > 1 and w[1].isdigit() and int(w[1]) < len(slots):
+            submitted.pop(slots[int(w[1])], None)     # what is queued may be discarded from here on
+            given_up.add(slots[int(w[1])])
         tx = _f(a, "tx=")
         if tx != "-":
             for f in tx.split(";"):
                 out.append((i, "mon_cn tx " + f))
+                p = f.split(":")
+                if p[0] == "D" and len(p) >= 4:
+                    sd = int(p[1])
+                    sent[sd] = sent.get(sd, 0) + int(p[3])
+                    if int(p[2]) & 1 and sd in submitted and sd not in given_up:
+                        out.append((i, f"mon_cn bodyend {submitted[sd]} {sent[sd]}"))
+                        submitted.pop(sd, None)
+                elif p[0] == "R" and len(p) >= 2:
+                    submitted.pop(int(p[1]), None)
         if w[0] == "cn_io" and budget_open and "unparsed=0" in r:
             out.append((i, "mon_cn quiescent"))
         if w[0] == "cn_dropconn":
